@@ -116,7 +116,7 @@ def _create_side(ctx, svc, create, host):
             sites += 1
     cgraph = ctx.cfg(host)
     creates = [n for n in cgraph.nodes if n.kind == 'test' and any(
-        K.is_meth(c, '_safe_create') for c in K.calls(n.ast))]
+        K.is_meth(c, '_safe_create') for c in K.test_calls(host, n))]
     ctx.require(creates, '_safe_create tests in %s' % host.qualname)
     if host is create:
         sites += len(creates)
@@ -477,11 +477,17 @@ def check(ctx):
     dels = [n for n in graph.nodes for c in C.node_calls(n)
             if 'ensure_deleted' in N.txt(c)]
     ctx.require(dels, 'delete in _unschedule')
+    unz = N.Normaliser(env=K.func_env(uns))
+    want = 'zkclient.exists(z.path.placement(_HOSTNAME, %s))' % \
+        uns.params()[1]
+
+    def placed_here(edge):
+        # the test itself or a local holding its outcome, with the node path
+        # read through its local
+        return any(a.key[0] == 'truth' and a.key[2] and a.key[1] == want
+                   for a in unz.facts_of_edge(edge))
     for node in dels:
-        ok = K.guarded_by(graph, node, lambda e: K.truth_edge(
-            nz, e, 'zkclient.exists(placement_node)', True)) and \
-            defs.get('placement_node') == \
-            'z.path.placement(_HOSTNAME, %s)' % uns.params()[1]
+        ok = K.guarded_by(graph, node, placed_here)
         ctx.ob('C17.5', uns, node, ok,
                "/scheduled is deleted only while this host's placement "
                'node exists')
